@@ -122,7 +122,13 @@ func NewC06(tier, alpha string) *C06 {
 
 func (c *C06) ID() string               { return "C06" }
 func (c *C06) Setup(in *hub.Instance)   {}
-func (c *C06) SeedPaths() [][]engine.Op { return [][]engine.Op{{}} }
+func (c *C06) SeedPaths() [][]engine.Op {
+	if c.Alpha == "hub3" {
+		// three accepted vote records with distinct nonces (what a late first voter walks over)
+		return [][]engine.Op{{engine.OpN("Dep", "ethereum"), engine.OpN("Dep", "ethereum"), engine.OpN("Dep", "ethereum"), engine.OpN("Next")}}
+	}
+	return [][]engine.Op{{}}
+}
 func (c *C06) Genesis() hub.Genesis {
 	g := StdGenesis(c.Vals, []int64{10, 10, 10, 0}, []sdk.AccAddress{c.User}, sdk.NewCoins(sdk.NewInt64Coin("hub", 1_000_000_000), sdk.NewInt64Coin("eth", 1_000_000_000)))
 	g.Staking[3].Power = 9
@@ -143,6 +149,10 @@ func (g *c06Ghost) Canon() string { return canonMap(g.Ev) }
 func (c *C06) NewGhost(in *hub.Instance) Ghost { return &c06Ghost{Ev: map[string]uint64{}} }
 
 func (c *C06) Ops(s *HState) []engine.Op {
+	if c.Alpha == "holders" {
+		// lists 0 and 1 are the same holder set in a different order (one claim hash), list 2 conflicts
+		return []engine.Op{engine.OpN("Boundary"), engine.OpN("Holders", 0, 0), engine.OpN("Holders", 1, 1), engine.OpN("Holders", 2, 0), engine.OpN("Holders", 2, 2)}
+	}
 	if c.Alpha == "oracle" {
 		// the oracle's attestation handler expands every vote into up to 65535 entries per price:
 		// one epoch costs ~50 ms, so this alphabet is kept small
@@ -211,7 +221,7 @@ func (c *C06) apply(in *hub.Instance, g *c06Ghost, op engine.Op) (pruned bool) {
 		in.DeliverMsg(&oracletypes.MsgPriceClaim{Epoch: epoch, Prices: &oracletypes.Prices{List: pl}, Orchestrator: c.Vals[op.I[0]].Acc.String()})
 	case "Holders":
 		epoch := in.Oracle.GetCurrentEpoch(in.Ctx())
-		in.DeliverMsg(&oracletypes.MsgHoldersClaim{Epoch: epoch, Holders: c18Holders(op.I[1] * 2), Orchestrator: c.Vals[op.I[0]].Acc.String()})
+		in.DeliverMsg(&oracletypes.MsgHoldersClaim{Epoch: epoch, Holders: c18Holders(op.I[1]), Orchestrator: c.Vals[op.I[0]].Acc.String()})
 	}
 	return false
 }
@@ -303,7 +313,9 @@ func init() {
 		}
 		return []MultiCase{
 				{Name: "mhub2 alphabet", Spec: NewC06(tier, "hub"), Cfg: engine.Config{MaxDepth: dh, Deadline: dl, ReplayLeaf: 60}},
+				{Name: "mhub2 alphabet from three accepted vote records", Spec: NewC06(tier, "hub3"), Cfg: engine.Config{MaxDepth: dh - 2, Deadline: dl / 2, ReplayLeaf: 20}},
 				{Name: "oracle alphabet", Spec: NewC06(tier, "oracle"), Cfg: engine.Config{MaxDepth: do, Deadline: dl, ReplayLeaf: 20}},
+				{Name: "oracle holders alphabet (same set reported in different orders)", Spec: NewC06(tier, "holders"), Cfg: engine.Config{MaxDepth: do + 1, Deadline: dl, ReplayLeaf: 20}},
 			}, []string{
 				"built with the overlay generated by tools/maprw from the CURRENT tree: every range-over-map site of x/mhub2 and x/oracle is a choice point (sites listed in the evidence)",
 				"alphabets put >=2 entries into every iterated map: two token ids per chain in the pool at batching time, two event nonces / two conflicting claims in one tally, first vote of a new validator, power change (PowerDiff), two price sets, two holder lists, several validators",
